@@ -1,4 +1,5 @@
 SPECIFICATION Spec
 CONSTANTS
+  MintLower = "MINT"
   Accounts = {"a1","a2","a3","a4","a5","a6","a7","a8"}
 CHECK_DEADLOCK FALSE
